@@ -375,3 +375,51 @@ Proof.
   - apply str_eqb_eq in E. subst. symmetry. apply str_eqb_refl.
   - symmetry. apply str_eqb_neq. apply str_eqb_neq in E. congruence.
 Qed.
+
+(** ** rfind / find of a one-character pattern, slices at a concatenation point *)
+
+Lemma rfind_aux_nochar c s : forall i best, nochar c s = true -> rfind_nat_aux [c] s i best = best.
+Proof.
+  induction s as [|x s IH]; intros i best H; [reflexivity|].
+  rewrite nochar_cons in H. apply andb_true_iff in H. destruct H as [Hx Hs]. apply negb_true_iff in Hx.
+  cbn [rfind_nat_aux prefixb]. rewrite Hx. cbn [andb]. apply IH. assumption.
+Qed.
+
+Lemma rfind_aux_last c a b : forall i best,
+  nochar c b = true -> rfind_nat_aux [c] (a ++ c :: b) i best = Some (i + List.length a)%nat.
+Proof.
+  induction a as [|x a IH]; intros i best H.
+  - cbn [app rfind_nat_aux prefixb]. rewrite Ascii.eqb_refl. cbn [andb].
+    rewrite rfind_aux_nochar by assumption. cbn [List.length]. f_equal. lia.
+  - cbn [app rfind_nat_aux]. rewrite IH by assumption. cbn [List.length]. f_equal. lia.
+Qed.
+
+Lemma rfind_last c a b : nochar c b = true -> rfind [c] (a ++ c :: b) = len a.
+Proof. intros H. unfold rfind, rfind_nat. rewrite rfind_aux_last by assumption. reflexivity. Qed.
+
+Lemma find_first c p l : nochar c p = true -> find [c] (p ++ c :: l) = len p.
+Proof.
+  intros H. unfold find, len.
+  assert (E : find_nat [c] (p ++ c :: l) = Some (List.length p)).
+  { induction p as [|x p IH].
+    - cbn [app find_nat prefixb]. rewrite Ascii.eqb_refl. reflexivity.
+    - rewrite nochar_cons in H. apply andb_true_iff in H. destruct H as [Hx Hp]. apply negb_true_iff in Hx.
+      cbn [app find_nat prefixb]. rewrite Hx. cbn [andb]. rewrite IH by assumption. reflexivity. }
+  rewrite E. reflexivity.
+Qed.
+
+Lemma slice_to_app a b : slice_to (a ++ b) (len a) = a.
+Proof.
+  unfold slice_to, norm_idx. rewrite len_app. pose proof (len_nonneg a). pose proof (len_nonneg b).
+  destruct (len a <? 0) eqn:E; [apply Z.ltb_lt in E; lia|].
+  replace (Z.to_nat (Z.min (len a) (len a + len b))) with (List.length a) by (unfold len in *; lia).
+  apply firstn_app_length.
+Qed.
+
+Lemma slice_from_app a b : slice_from (a ++ b) (len a) = b.
+Proof.
+  unfold slice_from, norm_idx. rewrite len_app. pose proof (len_nonneg a). pose proof (len_nonneg b).
+  destruct (len a <? 0) eqn:E; [apply Z.ltb_lt in E; lia|].
+  replace (Z.to_nat (Z.min (len a) (len a + len b))) with (List.length a) by (unfold len in *; lia).
+  apply skipn_app_length.
+Qed.
